@@ -193,7 +193,7 @@ def gen_box(r, dim):
 def grid_class(gs):
     import sparseSpACE.Grid as G
     return {"Trapezoidal": G.TrapezoidalGrid, "ClenshawCurtis": G.ClenshawCurtisGrid, "GaussLegendre": G.GaussLegendreGrid,
-            "Leja": G.LejaGrid,
+            "Leja": G.LejaGrid, "Mixed": G.MixedGrid,
             "Lagrange": G.LagrangeGrid, "GlobalTrapezoidal": G.GlobalTrapezoidalGrid, "GlobalHighOrder": G.GlobalHighOrderGrid,
             "GlobalRomberg": G.GlobalRombergGrid, "GlobalBalancedRomberg": G.GlobalBalancedRombergGrid}[gs["name"]]
 
@@ -223,6 +223,9 @@ def grid_kwargs(gs):
 
 
 def grid_label(gs):
+    if gs["name"] == "Mixed":
+        return "Mixed[" + ",".join(sp["kind"][0] + ("+" if sp["boundary"] else "-") for sp in gs["grids"]) + "]" + (
+            "(set_boundaries)" if gs.get("via_set_boundaries") else "")
     return (gs["name"] + ("(p=%d)" % gs["p"] if "p" in gs else "") + ("(deg=%d)" % gs["max_degree"] if "max_degree" in gs else "") +
             ("(old)" if gs.get("integrator") == "old" else ""))
 
@@ -233,9 +236,22 @@ def is_nodal(gs):
 
 
 def make_grid(gs, a, b, cls=None):
-    """fresh grid object of the family described by gs = {"name":..., "boundary":..., ...}"""
+    """fresh grid object of the family described by gs = {"name":..., "boundary":..., ...}.
+    name "Mixed": MixedGrid of 1-D grids gs["grids"] = [{"kind": "Trapezoidal"|"ClenshawCurtis", "boundary": bool}, ...] (cycled over
+    the dimensions) whose boundary flags may DIFFER per dimension; with gs["via_set_boundaries"] the 1-D grids are built with boundary
+    points everywhere and the flags are then installed through the public Grid.set_boundaries()."""
     a = np.array(a, dtype=float)
     b = np.array(b, dtype=float)
+    if gs["name"] == "Mixed":
+        import sparseSpACE.Grid as G
+        kinds = {"Trapezoidal": G.TrapezoidalGrid1D, "ClenshawCurtis": G.ClenshawCurtisGrid1D}
+        specs = [gs["grids"][d % len(gs["grids"])] for d in range(len(a))]
+        via = bool(gs.get("via_set_boundaries"))
+        grids = [kinds[sp["kind"]](a=a[d], b=b[d], boundary=True if via else sp["boundary"]) for d, sp in enumerate(specs)]
+        g = (cls or G.MixedGrid)(a, b, grids=grids)
+        if via:
+            g.set_boundaries([sp["boundary"] for sp in specs])
+        return g
     return (cls or grid_class(gs))(a, b, **grid_kwargs(gs))
 
 
@@ -1212,15 +1228,20 @@ ES_CONFIGS = [   # (grid, automatic_extend_split, split_single_dim); cycled, so 
     ({"name": "ClenshawCurtis", "boundary": True}, True, False),
     ({"name": "Trapezoidal", "boundary": True}, False, True),
     ({"name": "Lagrange", "boundary": True, "p": 2}, True, False),
+    # MixedGrid whose 1-D grids have DIFFERENT boundary flags (the error estimator saves/restores them via get_/set_boundaries)
+    ({"name": "Mixed", "grids": [{"kind": "Trapezoidal", "boundary": True}, {"kind": "Trapezoidal", "boundary": False}]}, False, False),
     ({"name": "Trapezoidal", "boundary": True}, True, False),
     ({"name": "GaussLegendre", "boundary": True}, True, False),
     ({"name": "Trapezoidal", "boundary": True}, False, False),
     ({"name": "GaussLegendre", "boundary": True}, False, False),
+    ({"name": "Mixed", "grids": [{"kind": "Trapezoidal", "boundary": False}, {"kind": "Trapezoidal", "boundary": True}],
+      "via_set_boundaries": True}, True, False),
     # split_single_dim only with the trapezoidal grid: on the high-order grids (ClenshawCurtis, GaussLegendre, Lagrange) the code's own
     # `assert i == 2 ** self.dim or i == 2` (get_sum_sibling_value) fails on the unchanged tree as soon as an area is split in one dimension
     ({"name": "Lagrange", "boundary": True, "p": 3}, True, False),
     ({"name": "Trapezoidal", "boundary": True}, False, True),
     ({"name": "Lagrange", "boundary": True, "p": 2}, False, False),
+    ({"name": "Mixed", "grids": [{"kind": "ClenshawCurtis", "boundary": True}, {"kind": "Trapezoidal", "boundary": False}]}, False, False),
 ]
 DW_CONFIGS = [   # nodal global grids that run on the unchanged tree (GlobalSimpsonGrid, the Romberg grids and the modified basis raise)
     {"name": "GlobalTrapezoidal", "boundary": True},
@@ -1247,7 +1268,7 @@ def gen_adaptive(ctx, thorough, strategy, index=0):
     stops = sorted({1, r.randint(base // 2, 2 * base), r.randint(2 * base, 4 * base if not thorough else 7 * base)})
     if r.random() < 0.3 or (costly and dim == 3):
         stops = stops[:2]
-    allow_table = gs["name"] in ("Trapezoidal", "GlobalTrapezoidal")     # error estimators of the high-order paths want smooth data
+    allow_table = gs["name"] in ("Trapezoidal", "GlobalTrapezoidal", "Mixed")     # error estimators of the high-order paths want smooth data
     case = {"kind": "adaptive", "strategy": strategy, "dim": dim, "lmin": 1, "lmax": lmax, "a": a, "b": b,
             "f": gen_fspec(r, dim, allow_table=allow_table, nondyadic=r.random() < 0.15), "stops": stops, "grid": dict(gs)}
     if r.random() < 0.15:
@@ -1291,7 +1312,8 @@ def run(ctx):
                 "state compared with the model after every operation; macro: StandardCombi (Trapezoidal with/without boundary, "
                 "ClenshawCurtis, GaussLegendre, Leja lmax 3-4 (negative weights); default and point-wise 'old' integrator), DimAdaptiveCombi (every stopping iteration), dimension-wise (GlobalTrapezoidalGrid with/without boundary, GlobalHighOrderGrid "
                 "max_degree 3/5, default grid_surplusses, versions 2/3/6, with/without rebalancing and reference) and extend-split (version 0; "
-                "Trapezoidal, ClenshawCurtis, GaussLegendre, Lagrange p=2/3; with and without automatic_extend_split) in dim 2-3, lmin 1, lmax 2-3, "
+                "Trapezoidal, ClenshawCurtis, GaussLegendre, Lagrange p=2/3, MixedGrid with different per-dimension boundary flags (also installed via "
+                "set_boundaries); with and without automatic_extend_split) in dim 2-3, lmin 1, lmax 2-3, "
                 "polynomial (dyadic and non-dyadic coefficients) or table-backed integrands with 1-3 outputs, 2-3 stops per run "
                 "(first fresh, later via continue_adaptive_refinement) plus fresh runs with/without reevaluate_at_end; 15% of the adaptive "
                 "cases with recalculate_frequently (refinements_for_recalculate 1-5); "
